@@ -17,7 +17,7 @@ pub static ADMISSION: Scenario = Scenario {
     run,
     quick_runs: 5000,
     thorough_runs: 150_000,
-    rule: "one run = a listener Network with connection limit in {none,0,1,2,3} and 3-6 dialer Networks; a sequential PRNG history of 4-25 steps (arrival, repeated arrival of a connected peer, explicit outbound dial by the listener, background dial to a High-affinity peer, disconnect by either side, affinity change through KnownPeers at run time) checked step by step against the reference admission rule; fault-free configuration: connect is Ok iff the model admits and peers() equals the model after every step; lossy configuration: never over-admits; distinct = distinct order signature (step kind, affinity, count vs limit, outcome); non-trivial = a step where the limit or a Never/High/Allowed affinity decided",
+    rule: "one run = a listener Network with connection limit in {none,0,1,2,3} and 3-6 dialer Networks; a sequential PRNG history of 4-25 steps (arrival, arrival of a dialer that vanishes right after TLS completes, repeated arrival of a connected peer, explicit outbound dial by the listener, background dial to a High-affinity peer, disconnect by either side, affinity change through KnownPeers at run time) checked step by step against the reference admission rule; fault-free configuration: connect is Ok iff the model admits and peers() equals the model after every step; lossy configuration: never over-admits; distinct = distinct order signature (step kind, affinity, count vs limit, outcome); non-trivial = a step where the limit or a Never/High/Allowed affinity decided",
     real: super::REAL_NET,
     stubbed: super::STUB_NET,
 };
@@ -60,12 +60,41 @@ fn run(input: RunInput) -> ScenFuture {
         let mut steps_log = Vec::new();
         let mut decided = 0u64;
         let aff_of = |aff: &BTreeMap<usize, Affinity>, k: usize| aff.get(&k).copied().unwrap_or(Affinity::Unknown);
+        // dialers that vanish in the middle of being admitted: a raw QUIC client with a valid
+        // identity of its own (unknown to the listener) completes TLS and closes at once, a few
+        // milliseconds later, or sends nothing further and is closed after the settle period -
+        // before, while or after the listener runs its admission check and acknowledgement. Such
+        // an arrival never counts once it is gone: the model is unchanged by it.
+        let ghosts = w.flag("vanishing_dialers", 0.5);
+        let mut retired = Vec::new();
         for step in 0..n_steps {
             let k = r.gen_range(0..n_dialers);
             let d = &dialers[k];
             let choice = r.gen_range(0..100);
             let desc;
-            if choice < 45 {
+            if ghosts && r.gen_bool(0.2) {
+                let mut key = [0u8; 32];
+                r.fill(&mut key);
+                let adv = crate::adversary::adv_endpoint(&w, crate::adversary::AdvSpec {
+                    idx: 9, port: 7200 + step as u16, chain: vec![crate::adversary::gen_cert(&key, "sim")], sign_key: key,
+                    present_client_cert: true, idle_ms: 20_000, keep_alive_ms: None, max_bidi: 10,
+                });
+                let mode = r.gen_range(0..3);
+                let hold_us = match mode { 0 => 0, 1 => r.gen_range(0..3 * lat_max), _ => settle_ms * 1000 };
+                let conn = match adv.ep.connect_with(adv.client.clone(), l.addr, "sim") {
+                    Ok(c) => tokio::time::timeout(std::time::Duration::from_millis(1_500), c).await.ok().and_then(|r| r.ok()),
+                    Err(_) => None,
+                };
+                let tls_ok = conn.is_some();
+                if let Some(c) = conn {
+                    tokio::time::sleep(std::time::Duration::from_micros(hold_us)).await;
+                    c.close(0u32.into(), b"");
+                }
+                sleep_ms(settle_ms).await;
+                retired.push(adv);
+                w.probe("vanishing-dialer");
+                desc = format!("vanishing dialer mode={mode} tls={tls_ok}");
+            } else if choice < 45 {
                 // arrival at the listener
                 let a = aff_of(&aff, k);
                 // strict configuration: the model's count; under loss connections may vanish at
@@ -194,7 +223,7 @@ fn run(input: RunInput) -> ScenFuture {
         w.probe_n("steps-decided-by-limit-or-affinity", decided);
         w.sample("history", json!({"limit": limit, "dialers": n_dialers, "lossy": lossy, "steps": steps_log}));
         let out = w.finish();
-        drop((l, dialers));
+        drop((l, dialers, retired));
         out
     })
 }
